@@ -24,6 +24,7 @@ import (
 //	H <func> <B|W> <segs> <tag>               hand-written decoder (ReadPacket, NameFromBytes, ...)
 func TestMutGen(t *testing.T) {
 	g, w, done := setup(t)
+	g.LongNameDen = 96 // every mutant of a 300-component name is a case: keep long names rare in the mutation stream
 	defer done()
 	n := envInt("VERIF_N", 2)
 	full := os.Getenv("VERIF_FULL") == "1"
